@@ -125,3 +125,37 @@ def NI1_sign_independence(rep, flow, root_fq="stabilizer_circuits.get_readout_ci
                 rep.finding("NI1", f"{f.fq}:{pyfacts.norm_stmt(n)}", f"{pyfacts.where(f, n)}: reads the sign field ({pyfacts.norm_stmt(n)}) inside the call closure of {root.qualname}: the readout circuit may depend on the signs")
         else:
             rep.ok("NI1", 1, nontrivial=f.fq, sample=f"{f.fq}: no read of {sorted(fields)}")
+
+
+def NI2_validity_sign_free(rep, flow, fq="stabilizer.Stabilizer.validate"):
+    """C08: 'the validity check accepts exactly the sets of n commuting, independent Paulis' - a statement
+    about the X/Z parts only.  The value returned by the validity check must therefore not depend on the
+    sign field (intra-procedural taint from a read of the sign field to a returned expression; asserts and
+    diagnostics on the sign vector itself are not counted)."""
+    rep.rule("NI2", "the value returned by the validity check does not depend on the stabilizer's sign field (taint from a read of the sign field to a return expression, through local assignments and callees' arguments)", floor=1)
+    prog = flow.prog
+    fields, stab = sign_fields(prog)
+    f = prog.func(fq)
+    tainted = set()
+    def has_taint(e):
+        for n in ast.walk(e):
+            if isinstance(n, ast.Attribute) and n.attr in fields and isinstance(n.ctx, ast.Load):
+                return True
+            if isinstance(n, ast.Name) and n.id in tainted and isinstance(n.ctx, ast.Load):
+                return True
+        return False
+    for _ in range(4):
+        for n in ast.walk(f.node):
+            if isinstance(n, (ast.Assign, ast.AnnAssign, ast.AugAssign)) and getattr(n, "value", None) is not None and has_taint(n.value):
+                for t in (n.targets if isinstance(n, ast.Assign) else [n.target]):
+                    for x in ast.walk(t):
+                        if isinstance(x, ast.Name):
+                            tainted.add(x.id)
+    rets = [n for n in ast.walk(f.node) if isinstance(n, ast.Return) and n.value is not None]
+    if not rets:
+        raise AnalysisError(f"{fq}: no return")
+    for r in rets:
+        if has_taint(r.value):
+            rep.finding("NI2", f"{fq}:return", f"{pyfacts.where(f, r)}: the verdict of the validity check depends on the sign field {sorted(fields)} [{pyfacts.norm_stmt(r)}]: whether a Pauli set is accepted must be decided by its X/Z parts alone (a dependent set with contradictory signs, e.g. ['ZI','-ZI'], would be accepted)")
+        else:
+            rep.ok("NI2", 1, nontrivial=pyfacts.norm_stmt(r), sample=f"{fq}: {pyfacts.norm_stmt(r)[:100]}")
